@@ -65,29 +65,54 @@ Example C16_hyps_rename_nontrivial :
   /\ length (v_log (view_of_model ex_cfg w2 e0 (CRename (bs "a") (bs "z")) [])) = 5%nat.
 Proof. vm_compute. repeat split. Qed.
 
-(* ------------------------------------------------------------------ (c) without exports_simple: refuted *)
-(* two directives name the same key with different sources: layercake links the LAST source
-   (make_symlink_in_dir replaces a symlink that points elsewhere), the property text's
-   "an explicit directive names it" read as the first directive gives the FIRST *)
-Example C16_after_mount_refuted_dup :
+(* ------------------------------------------------------------------ the former counterexamples to (c) *)
+(* two directives name the same entry with different sources: layercake links the LAST source
+   (make_symlink_in_dir replaces a symlink that points elsewhere); with the refined predicate
+   (explicit_targets = all the sources named for the entry) the world satisfies step_spec and
+   is covered by the theorem (mount_ok holds) *)
+Example C16_dup_directives_ok :
   plain_env e0 = true /\ cfg_ok ex_cfg = true /\ cfg_ok_mount ex_cfg = true /\ world_ok ex_cfg (w1 conf_dup) = true
-  /\ mount_ok ex_cfg (w1 conf_dup) (CMount (bs "a")) = false
-  /\ v_res (v1 conf_dup (CMount (bs "a"))) = ROk
+  /\ mount_ok ex_cfg (w1 conf_dup) (CMount (bs "a")) = true
+  /\ v_res (v1 conf_dup (CMount (bs "a"))) = ROk /\ length (v_log (v1 conf_dup (CMount (bs "a")))) = 5%nat
   /\ readlink (wo_fs (v_after (v1 conf_dup (CMount (bs "a"))))) (bs "/b/export/packages/a")
      = Some (bs "/b/layers/a/build/p2")
-  /\ C16.step_spec ex_cfg (w1 conf_dup) (v1 conf_dup (CMount (bs "a"))) = false.
+  /\ C16.step_spec ex_cfg (w1 conf_dup) (v1 conf_dup (CMount (bs "a"))) = true.
 Proof. vm_compute. repeat split. Qed.
 
-(* a directive whose target is written as the absolute path of the link instead of
-   "$$package_export": layercake makes the link, the predicate does not count it as explicit
-   and wants the automatic link to packages/ *)
-Example C16_after_mount_refuted_abs :
+(* a directive whose target is written as the absolute path of the link: now recognised as
+   explicit through its expanded target *)
+Example C16_written_out_target_ok :
   plain_env e0 = true /\ cfg_ok ex_cfg = true /\ cfg_ok_mount ex_cfg = true /\ world_ok ex_cfg (w1 conf_abs) = true
-  /\ mount_ok ex_cfg (w1 conf_abs) (CMount (bs "a")) = false
+  /\ mount_ok ex_cfg (w1 conf_abs) (CMount (bs "a")) = true
   /\ v_res (v1 conf_abs (CMount (bs "a"))) = ROk
   /\ readlink (wo_fs (v_after (v1 conf_abs (CMount (bs "a"))))) (bs "/b/export/packages/a")
      = Some (bs "/b/layers/a/build/p1")
-  /\ C16.step_spec ex_cfg (w1 conf_abs) (v1 conf_abs (CMount (bs "a"))) = false.
+  /\ C16.step_spec ex_cfg (w1 conf_abs) (v1 conf_abs (CMount (bs "a"))) = true.
+Proof. vm_compute. repeat split. Qed.
+
+(* ------------------------------------------------------------------ (c) without chain_own: refuted in the model *)
+(* a directive that targets a path which is not one of the layer's own links -- here the
+   PARENT of the link, twice, around the directive for the link: the second one finds a symlink
+   pointing elsewhere, and the model's textual remove_all takes the link entry listed below it
+   along (in a real tree the link would have been created inside build/p2, through the
+   symlinked directory: "intermediate symlinked directories are outside wf", Model/FsTree.v) *)
+Definition fs3 (conf : string) : fsT :=
+  [d "/"; d "/b"; d "/b/layers"; d "/b/export"; fl "/b/default_layerconfig.skel" "";
+   d "/b/layers/a"; fl "/b/layers/a/layerconfig" conf;
+   d "/b/layers/a/build"; d "/b/layers/a/build/bin"; d "/b/layers/a/build/etc"; d "/b/layers/a/build/lib";
+   d "/b/layers/a/build/opt"; d "/b/layers/a/build/root"; d "/b/layers/a/build/sbin"; d "/b/layers/a/build/usr";
+   d "/b/layers/a/build/p1"; d "/b/layers/a/build/p2"].
+Definition w3 (conf : string) : wobs := MkWO (fs3 conf) (MkKS [] 2 1).
+Definition conf_par : string :=
+  ("export symlink p2 /b/export/packages" ++ nlc ++ "export symlink p1 $$package_export" ++ nlc
+   ++ "export symlink p1 /b/export/packages" ++ nlc)%string.
+Definition v3 : sview := view_of_model ex_cfg (w3 conf_par) e0 (CMount (bs "a")) [].
+Example C16_after_mount_refuted_foreign_target :
+  plain_env e0 = true /\ cfg_ok ex_cfg = true /\ cfg_ok_mount ex_cfg = true /\ world_ok ex_cfg (w3 conf_par) = true
+  /\ mount_ok ex_cfg (w3 conf_par) (CMount (bs "a")) = false
+  /\ v_res v3 = ROk /\ length (v_log v3) = 4%nat
+  /\ exists_ (wo_fs (v_after v3)) (bs "/b/export/packages/a") = false
+  /\ C16.step_spec ex_cfg (w3 conf_par) v3 = false.
 Proof. vm_compute. repeat split. Qed.
 
 (* ------------------------------------------------------------------ why the well-formedness hypotheses *)
